@@ -169,6 +169,33 @@ PROPS = {
                    "round trip revisit→merge restores the original's block. Correspondence drives the real functions (including serialize + strict re-parse of the revisit) with a clause-by-clause oracle",
         level_note="Trusted: Lean kernel, correspondence harness. Modelled by hand: record.go ToRevisitRecord/CreateRevisitRef/Merge, revisitblock.go.",
     ),
+    "C04": dict(
+        title="Writer and reader agree on record positions (random access)",
+        lean_modules=["Gowarc.Props.C04"],
+        n_quick=1500, n_thorough=12000,
+        required_theorems=["C04_inv", "C04_tracked_size", "C04_offset", "C04_offset_stable", "C04_sequential", "step_grows", "write_inv", "close_inv"],
+        model_assumptions=["member bytes (the marshaler's and the compressor's output) are data: the harness measures each member's length on disk and hands it to the model; everything the writer decides is modelled",
+                           "C04_sequential is stated for any self-delimiting codec (dec (enc x ++ rest) = some (x, rest)); that gowarc's marshal/gzip and unmarshal form such a codec is checked by the read-back oracle (independent scanner, fresh reader at every offset, sequential reader under three source behaviours), not proved",
+                           "one worker (deterministic); n workers are C09; segmentation (continuation records) is C10",
+                           "the float multiplication by the expected compression ratio is the parameter `scale`; the harness uses ratios that are exact in binary"],
+        design_ref="DESIGN.md section 5, C04",
+        level_text="State-machine model of singleWarcFileWriter (fit test, file creation, warcinfo, append, size tracking, close/rename/callback) with a reachable-state invariant: the tracked size equals the open file's length; theorems for every operation sequence: the reported offset is where "
+                   "the record's bytes start and they stay there under all later operations, BytesWritten is the serialized length, sequential decoding visits the members at the prefix-sum offsets and ends at the file length. Correspondence on Write/Rotate/Close sequences through the public API "
+                   "with files read back by an independent scanner and by gowarc's reader",
+        level_note="Trusted: Lean kernel, correspondence harness and its independent scanner. Modelled by hand: warcfile.go singleWarcFileWriter. Reader-side offset arithmetic (countingreader, bufio) is covered by the oracle only.",
+    ),
+    "C13": dict(
+        title="Rotation, naming and warcinfo invariants of written files",
+        lean_modules=["Gowarc.Props.C13"],
+        n_quick=1500, n_thorough=12000,
+        required_theorems=["C13_info", "C13_no_info", "C13_names", "C13_callback", "C13_fit", "run_inv13"],
+        model_assumptions=["as C04; file names are identified with the serial number of the NewWarcfileName call that produced them (the harness supplies a counting generator; uniqueness of PatternNameGenerator's serial is atomic.AddInt32)",
+                           "a record is never split across files by construction of the model (files are lists of whole members); that the bytes on disk are such lists is judged by the independent scanner"],
+        design_ref="DESIGN.md section 5, C13",
+        level_text="Same model as C04 with the warcinfo/callback invariant proved for every reachable state: each file starts with exactly its own warcinfo member and every other member is stamped with that file's warcinfo id (none without a generator); a record joins the open non-empty file iff the fit test passes, "
+                   "else it starts the next file; ids unique, open suffix iff current; exactly one callback per closed file with its id, true size and warcinfo id. Oracle on the implementation: scanner-whole files, warcinfo position/count/WARC-Filename, stamping, fit rule, suffixes at every step, callback arguments",
+        level_note="Trusted: Lean kernel, correspondence harness and its independent scanner. Modelled by hand: warcfile.go singleWarcFileWriter.",
+    ),
 }
 
 
